@@ -59,6 +59,8 @@ type method struct {
 	ptrWrites   bool       // assigns through a selector / index / pointer other than a receiver field
 	otherLocks  []string   // identifiers (≠ receiver) whose instance lock this method takes
 	underOther  []string   // own methods called (or "#own-lock") while another instance's lock is held
+	retSlice    bool       // the method's single result is a slice
+	sliceRets   []string   // per return statement: fresh | nil | call:<own method> | stored:<expr>
 	extCalls    []string   // calls `X.F(…)` on identifiers other than the receiver (package functions, locals), in order of first occurrence
 }
 
@@ -800,6 +802,116 @@ func collect(dir string, only map[string]bool, types map[string]*typ, order *[]s
 	}
 }
 
+// sliceResults classifies what a slice-returning method returns: a slice allocated in this call
+// (`make`, a composite literal, a declared-and-appended local), nil, the result of another own method,
+// or something stored (a field, a slice of a field, a local that was ever assigned anything else).
+func sliceResults(fd *ast.FuncDecl, recv string, methodSet map[string]bool) (bool, []string) {
+	if fd.Type.Results == nil || len(fd.Type.Results.List) != 1 {
+		return false, nil
+	}
+	at, ok := fd.Type.Results.List[0].Type.(*ast.ArrayType)
+	if !ok || at.Len != nil {
+		return false, nil
+	}
+	isAlloc := func(e ast.Expr) bool {
+		switch x := e.(type) {
+		case *ast.CompositeLit:
+			_, ok := x.Type.(*ast.ArrayType)
+			return ok
+		case *ast.CallExpr:
+			if id, ok := x.Fun.(*ast.Ident); ok && id.Name == "make" {
+				return true
+			}
+		}
+		return false
+	}
+	fresh := map[string]bool{}
+	tainted := map[string]bool{}
+	var isFreshExpr func(e ast.Expr) bool
+	isFreshExpr = func(e ast.Expr) bool {
+		if isAlloc(e) {
+			return true
+		}
+		switch x := e.(type) {
+		case *ast.Ident:
+			return x.Name == "nil" || (fresh[x.Name] && !tainted[x.Name])
+		case *ast.CallExpr: // append(fresh, …) stays fresh
+			if id, ok := x.Fun.(*ast.Ident); ok && id.Name == "append" && len(x.Args) > 0 {
+				return isFreshExpr(x.Args[0])
+			}
+		case *ast.ParenExpr:
+			return isFreshExpr(x.X)
+		}
+		return false
+	}
+	var rets []string
+	ast.Inspect(fd.Body, func(n ast.Node) bool {
+		switch x := n.(type) {
+		case *ast.FuncLit:
+			return false
+		case *ast.DeclStmt:
+			if gd, ok := x.Decl.(*ast.GenDecl); ok {
+				for _, sp := range gd.Specs {
+					if vs, ok := sp.(*ast.ValueSpec); ok {
+						if _, isSlice := vs.Type.(*ast.ArrayType); isSlice && len(vs.Values) == 0 {
+							for _, nm := range vs.Names {
+								fresh[nm.Name] = true
+							}
+						}
+						for i, v := range vs.Values {
+							if i < len(vs.Names) {
+								if isFreshExpr(v) {
+									fresh[vs.Names[i].Name] = true
+								} else {
+									tainted[vs.Names[i].Name] = true
+								}
+							}
+						}
+					}
+				}
+			}
+		case *ast.AssignStmt:
+			if len(x.Lhs) == len(x.Rhs) {
+				for i, l := range x.Lhs {
+					if id, ok := l.(*ast.Ident); ok {
+						if isFreshExpr(x.Rhs[i]) {
+							fresh[id.Name] = true
+						} else {
+							tainted[id.Name] = true
+						}
+					}
+				}
+			}
+		case *ast.ReturnStmt:
+			if len(x.Results) != 1 {
+				rets = append(rets, "stored:?")
+				return true
+			}
+			r := x.Results[0]
+			switch {
+			case isFreshExpr(r):
+				if id, ok := r.(*ast.Ident); ok && id.Name == "nil" {
+					rets = append(rets, "nil")
+				} else {
+					rets = append(rets, "fresh")
+				}
+			default:
+				if call, ok := r.(*ast.CallExpr); ok {
+					if sel, ok := call.Fun.(*ast.SelectorExpr); ok {
+						if id, ok := sel.X.(*ast.Ident); ok && id.Name == recv && methodSet[sel.Sel.Name] {
+							rets = append(rets, "call:"+sel.Sel.Name)
+							return true
+						}
+					}
+				}
+				rets = append(rets, "stored:"+exprString(r))
+			}
+		}
+		return true
+	})
+	return true, rets
+}
+
 func analyse(t *typ) {
 	for _, fd := range t.decls {
 		m := &method{name: fd.Name.Name, exported: ast.IsExported(fd.Name.Name)}
@@ -810,6 +922,7 @@ func analyse(t *typ) {
 		if len(fd.Recv.List[0].Names) > 0 {
 			recv = fd.Recv.List[0].Names[0].Name
 		}
+		m.retSlice, m.sliceRets = sliceResults(fd, recv, t.methodSet)
 		w := &walker{t: t, m: m, recv: recv}
 		for i, s := range fd.Body.List {
 			w.stmt(s, true, i)
@@ -900,7 +1013,7 @@ func main() {
 			fmt.Fprintf(&b, "    accHeld := %s,\n    accFree := %s,\n", leanAcc(m.accHeld), leanAcc(m.accFree))
 			fmt.Fprintf(&b, "    fieldCallsHeld := %s, fieldCallsFree := %s, callbacksHeld := %s,\n", leanPairs(m.fcHeld), leanPairs(m.fcFree), leanStrs(m.cbHeld))
 			fmt.Fprintf(&b, "    valueRecv := %v, rlock := %v, ptrWrites := %v, otherLocks := %s, underOther := %s,\n", m.valueRecv, m.rlock, m.ptrWrites, leanStrs(m.otherLocks), leanStrs(m.underOther))
-			fmt.Fprintf(&b, "    extCalls := %s,\n", leanStrs(m.extCalls))
+			fmt.Fprintf(&b, "    extCalls := %s, retSlice := %v, sliceRets := %s,\n", leanStrs(m.extCalls), m.retSlice, leanStrs(m.sliceRets))
 			fmt.Fprintf(&b, "    paths := %s }\n", leanPaths(m.paths))
 		}
 		var ms []string
